@@ -89,7 +89,7 @@ func TestL5UpgraderStack(t *testing.T) {
 	skipIfLowerLayerFailed(t)
 	defer noteFailure(t)
 	name := t.Name()
-	hx.Check(t, 200, 8000, 0, func(rt *rapid.T) {
+	hx.Check(t, 600, 18000, 0, func(rt *rapid.T) {
 		c := &muxCase{Layer: "upgrader"}
 		c.Key = rapid.Uint64().Draw(rt, "key")
 		c.Cap = rapid.SampledFrom(capSizes).Draw(rt, "cap")
@@ -334,7 +334,7 @@ func pidOf(idx int) protocol.ID { return protocol.ID(fmt.Sprintf("/c02/stream/%d
 func TestL5Hosts(t *testing.T) {
 	skipIfLowerLayerFailed(t)
 	name := t.Name()
-	hx.Check(t, 120, 4000, 0, func(rt *rapid.T) {
+	hx.Check(t, 400, 12000, 0, func(rt *rapid.T) {
 		c := &hostCase{}
 		c.Layer = "hosts"
 		c.Key = rapid.Uint64().Draw(rt, "key")
